@@ -283,7 +283,7 @@ namespace glm
 	GLM_FUNC_QUALIFIER vec<3, T, defaultp> make_vec3(T const *const ptr)
 	{
 		vec<3, T, defaultp> Result;
-		memcpy(value_ptr(Result), ptr, sizeof(vec<3, T, defaultp>));
+		memcpy(value_ptr(Result), ptr, sizeof(T) * 3);
 		return Result;
 	}
 
